@@ -237,9 +237,22 @@ func c04Sampled(c *caseCtx) {
 	if c.rng.Intn(2) == 0 {
 		o.profile = profTies
 	}
+	if c.rng.Intn(4) == 0 {
+		o.minAlt, o.maxAlt, o.profile = 13, 40, profTies // sorting algorithms change strategy above a dozen elements
+	}
 	g := genRequest(c.rng, o)
 	alts := g.M["knownAlternatives"].([]interface{})
-	mode := c.rng.Intn(3)
+	mode := c.rng.Intn(4)
+	if mode == 3 {
+		// utilities of very different magnitude (1e9 .. 4e12): the order and the tie classes are those of the values
+		scale := []float64{1e9, 1e11, 4e12}[c.rng.Intn(3)]
+		for _, a := range alts {
+			cv := a.(M)["criteria"].(M)
+			for k, v := range cv {
+				cv[k] = v.(float64) * scale
+			}
+		}
+	}
 	if mode == 1 {
 		// values that differ by less than the API's rounding step around a common base
 		base := quarter(c.rng, 0, 8)
@@ -334,7 +347,7 @@ func init() {
 	register(&propDef{
 		id: "C04",
 		rule: "exhaustive stream: every value vector in {0,1,2,3}^n for n<=6 (5460 vectors) through model.AlternativeResults.Ranking() and through weightedSum end to end; " +
-			"sampled stream: weightedSum/owa/choquet with 2..12 alternatives, tie-heavy and rounding-boundary values (steps of 0.25e-8), each with 3 random permutations of " +
+			"sampled stream: weightedSum/owa/choquet with 2..40 alternatives, tie-heavy, rounding-boundary (steps of 0.25e-8) and huge (x1e9..4e12) values, each with 3 random permutations of " +
 			"knownAlternatives and choseToMake. Oracle: order (value desc, id asc), exact link sets, link closure = {value <= own}; per-alternative invariance under " +
 			"permutation. Non-trivial = >=2 entries; distinct = distinct (stream/method, sizes of equal-value groups best first).",
 		assumptions: []string{"the oracle works from the reported (already rounded) values, as the statement does"},
